@@ -375,7 +375,7 @@ func runC07(c *run.Ctx) {
 		"each printed in one of 12 layouts (single line, one selection per line, one token per line, CRLF, comments, commas, BOM, tabs); monitors on every response: envelope rules, location-in-document and " +
 		"location-on-the-field's-line, pre-execution rejections carry no data, and the JSON writer's output at indent -1/0/2 with Sort on/off is accepted by encoding/json and decodes to the same structure. " +
 		"A response is non-trivial when it carries errors or nested data; distinct by (document text, variant)"
-	n := c.N(600, 25000)
+	n := c.N(1200, 25000)
 	c.MinNontriv = n / 2
 	lookahead := c.Open("K-C07-lookahead")
 	responses := 0
